@@ -346,3 +346,19 @@ Theorem session_repeat_same_output : forall (B : Type) (render : string * list s
   nth (S (List.length mid)) outs None = nth 0 outs None.
 Proof. exact (@session_repeat_same_output_lemma). Qed.
 Print Assumptions session_repeat_same_output.
+
+(* ---------------- round 5: helpers on the way into the reports ---------------- *)
+
+(* cpuProfile's handler-frame search ranges over a map and stops at the first qualifying address:
+   harmless, because at most one address can be the second frame of n - n/32 of n samples *)
+Theorem cpu_handler_frame_at_most_one : forall n c1 c2 : Z,
+  0 < c1 -> 0 < c2 -> c1 + c2 <= n ->
+  handler_frame_qualifies n c1 = true -> handler_frame_qualifies n c2 = false.
+Proof. exact handler_frame_unique_lemma. Qed.
+Print Assumptions cpu_handler_frame_at_most_one.
+
+(* the bound matters: counted against the stacks that have a second frame, two addresses qualify *)
+Theorem cpu_handler_frame_against_deep_stacks_refuted : exists n stacks c1 c2 : Z,
+  c1 + c2 <= stacks /\ (stacks - n / 32 <=? c1) = true /\ (stacks - n / 32 <=? c2) = true.
+Proof. exists 64, 4, 2, 2. exact handler_frame_against_deep_stacks_not_unique_witness. Qed.
+Print Assumptions cpu_handler_frame_against_deep_stacks_refuted.
